@@ -218,6 +218,11 @@ pub fn a_comp() -> Alphabet {
             "#+p",
             "180 C ",
             "\\",
+            "#a",
+            "#&a{}",
+            "~{2%kg}",
+            "@p{1}",
+            "@&a{1%l}",
         ],
     )
 }
